@@ -39,6 +39,18 @@ pub mod nz {
     pub fn cbor_len<C>(v: &u64, _: &mut C) -> usize { if *v == 0 { 1 } else { v.cbor_len(&mut ()) } }
 }
 
+/// Pass-through codec functions: exactly the trait impls, named in `encode_with` / `decode_with` / `cbor_len` (module `pass` for
+/// `with = "crate::support::pass"`) on fields that have NO codec in the model — a spelling variant of checks/derivegen.py
+/// (pass_eligible): on a mandatory type or a syntactic `Option<..>` the derived code behaves as without them.
+pub fn pass_enc<C, T: Encode<C>, W: minicbor::encode::Write>(v: &T, e: &mut minicbor::Encoder<W>, ctx: &mut C) -> Result<(), minicbor::encode::Error<W::Error>> { v.encode(e, ctx) }
+pub fn pass_dec<'b, C, T: Decode<'b, C>>(d: &mut Decoder<'b>, ctx: &mut C) -> Result<T, minicbor::decode::Error> { T::decode(d, ctx) }
+pub fn pass_len<C, T: CborLen<C>>(v: &T, ctx: &mut C) -> usize { v.cbor_len(ctx) }
+pub mod pass {
+    pub use super::pass_enc as encode;
+    pub use super::pass_dec as decode;
+    pub use super::pass_len as cbor_len;
+}
+
 pub struct Ops {
     pub enc: fn(&str) -> String,
     pub encb: fn(&str) -> (Vec<u8>, usize),
